@@ -86,6 +86,29 @@ def functions_zeroth(rep, seed):
            ]
     for name, f, npf in lin:
         cases.append((name, f, npf, 3, [(3, 3)]))
+    # the functions NumPy defines for matrices of any shape: wide, tall (rows >= columns + 2), single row / column
+    RECT = [(2, 4), (4, 2), (5, 3), (3, 1), (1, 4)]
+    rect = [("trace", algopy.trace, numpy.trace), ("diag(matrix)", algopy.diag, numpy.diag), ("transpose", algopy.transpose, numpy.transpose),
+            ("triu", algopy.triu, numpy.triu), ("tril", algopy.tril, numpy.tril), ("sum", algopy.sum, numpy.sum),
+            ("sum axis 0", lambda x: algopy.sum(x, axis=0), lambda a: numpy.sum(a, axis=0)), ("sum axis -1", lambda x: algopy.sum(x, axis=-1), lambda a: numpy.sum(a, axis=-1)),
+            ("prod", algopy.prod, numpy.prod), ("dot(x, x.T)", lambda x: algopy.dot(x, x.T), lambda a: numpy.dot(a, a.T)),
+            ("dot(x.T, x)", lambda x: algopy.dot(x.T, x), lambda a: numpy.dot(a.T, a)),
+            ("outer(rows)", lambda x: algopy.outer(x[0], x[-1]), lambda a: numpy.outer(a[0], a[-1])),
+            ("tile", lambda x: algopy.tile(x, (2, 1)), lambda a: numpy.tile(a, (2, 1))),
+            ("reshape", lambda x: algopy.reshape(x, (x.size,)), lambda a: numpy.reshape(a, (a.size,))),
+            ("qr[1]", lambda x: algopy.qr(x)[1], lambda a: numpy.linalg.qr(a)[1]),
+            ("fft axis 0", lambda x: algopy.fft.fft(x, axis=0), lambda a: numpy.fft.fft(a, axis=0)),
+            ("zeros_like", lambda x: algopy.zeros_like(x), numpy.zeros_like)]
+    for k in (-2, -1, 1, 2, 3):
+        rect.append(("diag(matrix, %d)" % k, lambda x, k=k: algopy.diag(x, k), lambda a, k=k: numpy.diag(a, k)))
+        rect.append(("triu(matrix, %d)" % k, lambda x, k=k: algopy.triu(x, k), lambda a, k=k: numpy.triu(a, k)))
+        rect.append(("tril(matrix, %d)" % k, lambda x, k=k: algopy.tril(x, k), lambda a, k=k: numpy.tril(a, k)))
+    for name, f, npf in rect:
+        shapes = [sh for sh in RECT if not (name == "qr[1]" and sh[0] < sh[1])]
+        if name.startswith("diag(matrix, "):
+            k = int(name[13:-1])
+            shapes = [sh for sh in shapes if (min(sh[0], sh[1] - k) if k >= 0 else min(sh[0] + k, sh[1])) > 0]      # (non-empty diagonals)
+        cases.append((name + " (rectangular)", f, npf, 0, shapes))
     for name, f, npf, dom, shapes in cases:
         for shp in shapes:
             for (D, P) in ((1, 1), (3, 2)):
